@@ -327,6 +327,36 @@ func TestVerif_C10(t *testing.T) {
 		recWith(core, cfg, verifh.Scale(3, 4))
 	}
 
+	// (a') access streaks: a file opened again and again with every gap just below / at / above the map's
+	// time resolution (5 min), for longer than the idle limit, next to a file nobody touches; then a pass.
+	// The on-disk access time may lag by less than the resolution, never by the length of the streak.
+	{
+		res := int64(5 * time.Minute)
+		tti20 := strconv.FormatInt(int64(20*time.Minute), 10)
+		for _, capN := range []string{"cap=0", "cap=3"} {
+			for _, gap := range []int64{res - S, res, res + S, res / 2} {
+				for _, k := range []int{5, 6, 9} {
+					for _, via := range []string{"read", "persist"} {
+						ops := [][]string{{"op", "create", "aa01", "4"}, {"op", "create", "ab02", "4"}}
+						for i := 0; i < k; i++ {
+							ops = append(ops, []string{"op", "tick", strconv.FormatInt(gap, 10)})
+							if via == "read" {
+								ops = append(ops, []string{"op", "read", "aa01"})
+							} else {
+								ops = append(ops, []string{"op", "persist", "aa01", "0"}) // a metadata write is an access too
+							}
+						}
+						ops = append(ops, []string{"op", "cleanupttl", tti20, "0", "0", "0", "0"},
+							[]string{"op", "tick", strconv.FormatInt(int64(20*time.Minute)+S, 10)},
+							[]string{"op", "cleanupttl", tti20, "0", "0", "0", "0"})
+						c10Exec(tr, verifh.Case{Cfg: []string{capN, nowTok}, Ops: ops})
+						tr.Count("streak_cases", 1)
+					}
+				}
+			}
+		}
+	}
+
 	// (b) random: file sets with ages on both sides of TTI / TTL (±1 s), persist flags, capacities 0..3
 	r := verifh.NewRand(verifh.Seed(), "c10")
 	names := []string{"aa01", "ab02", "ac03", "ba04", "bb05"}
@@ -376,6 +406,15 @@ func TestVerif_C10(t *testing.T) {
 				ops = append(ops, []string{"op", "unpersist", nm})
 			case k < 47:
 				ops = append(ops, []string{"op", "delete", nm})
+			case k < 50 && nf > 0:
+				// a short access streak on one file with gaps around the time resolution
+				gap := []int64{299 * S, 300 * S, 301 * S, 150 * S}[r.Intn(4)]
+				for x := 0; x < 2+r.Intn(6); x++ {
+					clock += gap
+					ops = append(ops, []string{"op", "tick", strconv.FormatInt(gap, 10)}, []string{"op", "read", nm})
+				}
+				ops = append(ops, []string{"op", "cleanupttl", strconv.FormatInt(int64(r.Intn(3)+1)*600*S, 10), "0", "0", "0", "0"})
+				tr.Count("random_streaks", 1)
 			case k < 57:
 				dt := []int64{S, 5 * 60 * S, 6*H - S, 6 * H, 6*H + S, 24 * H}[r.Intn(6)]
 				clock += dt
